@@ -454,6 +454,23 @@ func runCommittees(chk *vcommon.Check, env *c15env, thorough bool) {
 							return
 						}
 					}
+					// the certificate store may be ahead of the instance being begun (certificates fetched by the exchange
+					// while the instance was scheduled): the proposal of instance j still starts where instance j-1 ended
+					for j := 1; j < length; j++ {
+						inst := init + uint64(j)
+						n++
+						_, chain, err := in.GetProposal(bg, inst)
+						rep := map[string]any{"kind": "c15-committee", "case": hc, "instance": inst}
+						if err != nil {
+							chk.Violation("proposal-error", fmt.Sprintf("%+v: GetProposal(%d) with certificates up to %d stored: %v", hc, inst, init+uint64(length)-1, err), rep)
+							return
+						}
+						wantBase := e.byKey[string(cs[j-1].ECChain.Head().Key)]
+						if !bytes.Equal(chain.Base().Key, wantBase.key) {
+							chk.Violation("proposal-wrong-base", fmt.Sprintf("%+v: with certificates up to instance %d stored, the proposal for instance %d starts at %s, not at the head finalized by instance %d (%s)", hc, init+uint64(length)-1, inst, chain.Base(), inst-1, wantBase), rep)
+							return
+						}
+					}
 					for i := init; i <= init+uint64(length)+lb+1; i++ {
 						n++
 						got, err := in.GetCommittee(bg, i)
